@@ -509,9 +509,11 @@ pub fn hostile_delta() -> BoxedStrategy<u64> {
 
 pub fn seg(hostile: bool) -> BoxedStrategy<Seg> {
     let jit = (1usize..=60, 1u64..=2000, 1u64..=500).prop_map(|(n, lo, spread)| Seg::Jitter { n, lo, spread });
-    let eq = (1usize..=12, 1u64..=100_000).prop_map(|(n, d)| Seg::Equal { n, d });
-    let ar = (1usize..=12, 1u64..=10_000, 1u64..=500).prop_map(|(n, d0, step)| Seg::Arith { n, d0, step });
-    let zero = (1usize..=7).prop_map(|n| Seg::Zero { n });
+    // mostly short; sometimes long runs (dozens of consecutive stuck measurements)
+    let run = || prop_oneof![6 => 1usize..=12, 1 => 40usize..=130];
+    let eq = (run(), 1u64..=100_000).prop_map(|(n, d)| Seg::Equal { n, d });
+    let ar = (run(), 1u64..=10_000, 1u64..=500).prop_map(|(n, d0, step)| Seg::Arith { n, d0, step });
+    let zero = prop_oneof![6 => 1usize..=7, 1 => 30usize..=90].prop_map(|n| Seg::Zero { n });
     let small_lit = vec(1u64..=3000, 1..=10).prop_map(Seg::Lit);
     if hostile {
         let lit = vec(prop_oneof![2 => hostile_delta(), 1 => 1u64..=3000], 1..=8).prop_map(Seg::Lit);
@@ -531,6 +533,7 @@ pub fn measured_seg(hostile: bool) -> BoxedStrategy<Seg> {
         2 => Just((2u8, 0u64)),          // continue the progression
         2 => Just((3u8, 0u64)),          // zero delta
         1 => Just((4u8, 0u64)),          // same as the one before the previous
+        1 => (10u64..=40).prop_map(|k| (5u8, k)), // a long run of repeats of the previous delta
         if hostile { 2 } else { 0 } => hostile_delta().prop_map(|v| (0u8, v)),
     ];
     (vec(step, 2..=40), any::<u64>())
@@ -538,6 +541,13 @@ pub fn measured_seg(hostile: bool) -> BoxedStrategy<Seg> {
             let mut deltas: Vec<u64> = Vec::new();
             for (kind, v) in steps {
                 let n = deltas.len();
+                if kind == 5 {
+                    let d = if n >= 1 { deltas[n - 1] } else { 777 };
+                    for _ in 0..v {
+                        deltas.push(d);
+                    }
+                    continue;
+                }
                 let d = match kind {
                     1 if n >= 1 => deltas[n - 1],
                     2 if n >= 2 => deltas[n - 1].wrapping_add(deltas[n - 1].wrapping_sub(deltas[n - 2])),
